@@ -1,5 +1,7 @@
 import PfVerif.Audit.Tool
 import PfVerif.Props.C05
 import PfVerif.Lemmas.C05QCVaR
+import PfVerif.Lemmas.C05Tensor
 #audit_module PfVerif.Props.C05
 #audit_module_ns PfVerif.Lemmas.C05QCVaR PfVerif.C05QCVaR
+#audit_module_ns PfVerif.Lemmas.C05Tensor PfVerif.C05Tensor
